@@ -110,8 +110,45 @@ class Stats:
         self.errors.extend(other.errors)
 
 
+def _abandon_loops():
+    """After a livelock the case's event loop still holds its runaway tasks: drop them so that nothing leaks into the next case."""
+    import asyncio
+
+    from . import world
+
+    try:
+        loop = asyncio.get_event_loop_policy().get_event_loop()
+    except Exception:  # noqa: BLE001
+        loop = None
+    if loop is not None and hasattr(loop, 'all_tasks'):
+        for task in list(loop.all_tasks):
+            task._log_destroy_pending = False
+        try:
+            loop.shutdown()
+        except Exception:  # noqa: BLE001
+            pass
+    asyncio.set_event_loop(None)
+    world.reset(None)
+
+
 def safe_execute(check, case):
-    verdict = check.execute(case)
+    from . import steploop
+
+    steploop.start_case()
+    try:
+        verdict = check.execute(case)
+    except steploop.Livelock as exc:
+        # quiescence is what every oracle waits for: a case that never gets there is a violation of every property
+        # whose check drives a process ("never leaves the process stuck", "step_until_terminated() returns", ...)
+        _abandon_loops()
+        verdict = {'violations': [{'clause': 'livelock', 'detail': str(exc)}], 'nontrivial': True, 'classes': ['livelock'], 'history': {'case': case}}
+    else:
+        if steploop.BUDGET.get('tripped'):
+            # the guard fired inside user code and plumpy swallowed it as a failing step: the verdict of such a run is void
+            verdict = {'violations': [{'clause': 'livelock', 'detail': steploop.BUDGET['tripped']}], 'nontrivial': True, 'classes': ['livelock'], 'history': {'case': case}}
+    finally:
+        steploop.BUDGET['limit'] = None
+        steploop.BUDGET['armed'] = False
     verdict.setdefault('violations', [])
     verdict.setdefault('nontrivial', False)
     verdict.setdefault('classes', [])
@@ -138,7 +175,10 @@ def _worker(args):
                 _housekeeping(stats.evaluations)
         elif mode == 'hyp':
             _run_hypothesis(check, findings, stats, tier, seed * 1000 + shard, extra)
-    except Exception:  # noqa: BLE001 - harness error, reported with exit code 2
+    except (KeyboardInterrupt, SystemExit):
+        raise
+    except BaseException:  # noqa: BLE001 - harness error, reported with exit code 2 (a BaseException such as CancelledError
+        # escaping here would kill the pool worker silently and leave the parent waiting for its result for ever)
         stats.errors.append(traceback.format_exc())
     # verdict histories may hold non-JSON objects: make everything picklable/JSON-able
     stats.failures = [(c, _clean_verdict(v)) for c, v in stats.failures]
